@@ -75,6 +75,20 @@ func (ls2 *LeaseSet2) Verify() error {
 // Otherwise, the Destination's signing public key is returned.
 func (ls2 *LeaseSet2) signingPublicKeyForVerification() (types.SigningPublicKey, error) {
 	if ls2.HasOfflineKeys() && ls2.offlineSignature != nil {
+		// The transient key is only authoritative if the Destination's
+		// long-term signing key has signed it (the offline signature).
+		destKey, err := ls2.destination.SigningPublicKey()
+		if err != nil {
+			return nil, oops.Errorf("failed to get signing public key from Destination: %w", err)
+		}
+		authorised, err := ls2.offlineSignature.VerifySignature(destKey.Bytes())
+		if err != nil {
+			return nil, oops.Errorf("failed to verify offline signature: %w", err)
+		}
+		if !authorised {
+			return nil, oops.Errorf("offline signature is not valid under the Destination's signing key")
+		}
+
 		// Use transient signing public key from offline signature
 		transientKeyBytes := ls2.offlineSignature.TransientPublicKey()
 		transientSigType := ls2.offlineSignature.TransientSigType()
